@@ -3,6 +3,8 @@
 -/
 import MitmVerif.Model.C35
 import MitmVerif.Model.C35_Spec
+import MitmVerif.Model.C35_Str
+import MitmVerif.Lemmas.C35Str
 namespace MitmVerif.Props.C35
 open MitmVerif MitmVerif.C35
 open MitmVerif.C35.Spec (keq)
@@ -899,5 +901,368 @@ example : readHeaders [[]] = .error .index := by rfl
 example : readHeaders [[0x20, 0x61]] = .error .value := by rfl
 example : readHeaders (splitLines (C35.toBytes [([0x61], [0x20, 0x31])])) = .ok [([0x61], [0x31])] := by rfl
 example : readHeaders [[0x61, 0x3a, 0x31], [0x20, 0x32]] = .ok [([0x61], [0x31, 0x0d, 0x0a, 0x20, 0x32])] := by rfl
+
+
+/-! ### spelling of the fields an assignment touches
+
+The property statement fixes spelling and order of UNTOUCHED fields only.  What the code does with the fields it
+touches is nevertheless determined, and proved here: reused positions keep the spelling they had, fields that
+have to be created carry exactly the caller's spelling, and no other spelling ever appears. -/
+
+private theorem loop_touched (k : Bytes) (fs : Fields) : ∀ vs : List Bytes,
+    ((setAllLoop (kconv k) fs vs).1.filter (fun f => keq f.1 k)).map (·.1)
+        = ((fs.filter (fun f => keq f.1 k)).map (·.1)).take vs.length ∧
+    (setAllLoop (kconv k) fs vs).2.length = vs.length - Spec.count fs k := by
+  induction fs with
+  | nil => intro vs; simp [setAllLoop, Spec.count]
+  | cons f fs ih =>
+    intro vs
+    have hk : (kconv f.1 == kconv k) = keq f.1 k := rfl
+    by_cases hf : keq f.1 k = true
+    · have hc : Spec.count (f :: fs) k = Spec.count fs k + 1 := by simp [Spec.count, hf]
+      cases vs with
+      | nil =>
+        have := ih []
+        simp only [setAllLoop, hk, hf, if_true, hc]
+        simp [this.1, this.2] at *
+      | cons v vs' =>
+        have := ih vs'
+        simp only [setAllLoop, hk, hf, if_true, hc]
+        simp only [List.filter_cons, hf, if_true, List.map_cons, List.length_cons, List.take_succ_cons, this.1, this.2]
+        exact ⟨trivial, by omega⟩
+    · have hf' : keq f.1 k = false := by simpa using hf
+      have hc : Spec.count (f :: fs) k = Spec.count fs k := by simp [Spec.count, hf']
+      have := ih vs
+      simp only [setAllLoop, hk, hf', hc]
+      simp [hf', this.1, this.2]
+
+/-- after `set_all(k, vs)` the names of the fields named `k` are, in order: the old spellings of the first
+    `len(vs)` such fields, followed by the caller's spelling `k` once for every value beyond the old count -/
+theorem touched_spelling (fs : Fields) (k : Bytes) (vs : List Bytes) :
+    ((C35.setAll fs k vs).filter (fun f => keq f.1 k)).map (·.1)
+      = ((fs.filter (fun f => keq f.1 k)).map (·.1)).take vs.length
+        ++ List.replicate (vs.length - Spec.count fs k) k := by
+  have h := loop_touched k fs vs
+  simp only [C35.setAll, List.filter_append, List.map_append, h.1]
+  congr 1
+  rw [← h.2]
+  generalize (setAllLoop (kconv k) fs vs).2 = r
+  induction r with
+  | nil => rfl
+  | cons v r ih => simp [List.replicate_succ, keq_refl] at *; exact ih
+
+/-- a name that is not present yet is stored exactly as the caller spelled it, at the end -/
+theorem fresh_spelling (fs : Fields) (k : Bytes) (vs : List Bytes) (h : C35.getAll fs k = []) :
+    C35.setAll fs k vs = fs ++ vs.map (fun v => (k, v)) := by
+  rw [getAll_eq, getAll_nil_iff] at h
+  have hnone : ∀ f ∈ fs, keq f.1 k = false := by
+    intro f hf
+    cases hk : keq f.1 k with
+    | false => rfl
+    | true =>
+      have : 0 < Spec.count fs k := by
+        simp only [Spec.count]
+        exact List.length_pos_of_mem (List.mem_filter.mpr ⟨hf, hk⟩)
+      omega
+  rw [setAll_eq, Spec.setAll, h]
+  have hrw : ∀ (m : Fields) (i : Nat), (∀ f ∈ m, keq f.1 k = false) → Spec.rewrite k vs i m = m := by
+    intro m
+    induction m with
+    | nil => intro i _; rfl
+    | cons e m ih =>
+      intro i hm
+      have he := hm e (by simp)
+      simp only [Spec.rewrite, he, Bool.false_eq_true, if_false]
+      rw [ih i (fun f hf => hm f (by simp [hf]))]
+  rw [hrw fs 0 hnone]; simp
+
+private theorem loop_names (k : Bytes) (fs : Fields) : ∀ (vs : List Bytes),
+    ∀ f ∈ (setAllLoop (kconv k) fs vs).1, ∃ g ∈ fs, g.1 = f.1 := by
+  induction fs with
+  | nil => intro vs f hf; simp [setAllLoop] at hf
+  | cons e fs ih =>
+    intro vs f hf
+    have hk : (kconv e.1 == kconv k) = keq e.1 k := rfl
+    by_cases he : keq e.1 k = true
+    · cases vs with
+      | nil =>
+        simp only [setAllLoop, hk, he, if_true] at hf
+        obtain ⟨g, hg, hgf⟩ := ih [] f hf
+        exact ⟨g, by simp [hg], hgf⟩
+      | cons v vs' =>
+        simp only [setAllLoop, hk, he, if_true, List.mem_cons] at hf
+        rcases hf with h | h
+        · exact ⟨e, by simp, by rw [h]⟩
+        · obtain ⟨g, hg, hgf⟩ := ih vs' f h
+          exact ⟨g, by simp [hg], hgf⟩
+    · have he' : keq e.1 k = false := by simpa using he
+      simp only [setAllLoop, hk, he', Bool.false_eq_true, if_false, List.mem_cons] at hf
+      rcases hf with h | h
+      · exact ⟨e, by simp, by rw [h]⟩
+      · obtain ⟨g, hg, hgf⟩ := ih vs f h
+        exact ⟨g, by simp [hg], hgf⟩
+
+/-- assignment never makes a spelling up: every name in the result is the caller's or was stored before -/
+theorem spelling_not_invented (fs : Fields) (k : Bytes) (vs : List Bytes) :
+    ∀ f ∈ C35.setAll fs k vs, f.1 = k ∨ ∃ g ∈ fs, g.1 = f.1 := by
+  intro f hf
+  simp only [C35.setAll, List.mem_append, List.mem_map] at hf
+  rcases hf with h | ⟨v, _, hv⟩
+  · exact Or.inr (loop_names k fs vs f h)
+  · exact Or.inl (by rw [← hv])
+
+-- set_all(b"X-A", [n0, n1]) on [(x-a, v0)]: the reused field keeps "x-a", the created one is spelled "X-A"
+example : C35.setAll [([0x78, 0x2d, 0x61], [0x30])] [0x58, 0x2d, 0x41] [[0x31], [0x32]]
+    = [([0x78, 0x2d, 0x61], [0x31]), ([0x58, 0x2d, 0x41], [0x32])] := by decide
+
+
+/-! ### the str/bytes boundary: what the API returns -/
+
+open MitmVerif.C35.Api (AOp ARet K1 KV)
+
+/-- **`_always_bytes(_native(b)) = b` for every byte string** (utf-8 with surrogateescape): whatever name or value
+    the API hands out as `str` denotes the stored bytes again when it is handed back -/
+theorem native_roundtrip (b : Bytes) : encodeSE (native b) = some b :=
+  StrLemmas.encode_decF b.length b (Nat.le_refl _)
+
+theorem alwaysBytes_native (b : Bytes) : alwaysBytes (.s (native b)) = some b := native_roundtrip b
+
+-- non-ASCII / malformed input: "é" decodes to U+E9, a stray 0xC3 and 0xFF are escaped; lone U+D800 cannot be encoded
+example : native [0xc3, 0xa9, 0xc3, 0xff] = [0xe9, 0xdcc3, 0xdcff] := by decide
+example : encodeSE [0xd800] = none := by decide
+example : encodeSE [0xdcc3, 0xdca9] = some [0xc3, 0xa9] := by decide   -- so `_native ∘ _always_bytes` is NOT the identity
+
+private theorem encode_append (a b : PyStr) :
+    encodeSE (a ++ b) = (encodeSE a).bind (fun x => (encodeSE b).map (fun y => x ++ y)) := by
+  induction a with
+  | nil => simp [encodeSE]
+  | cons c a ih =>
+    simp only [List.cons_append, encodeSE, ih]
+    cases enc1 c <;> cases encodeSE a <;> cases encodeSE b <;> simp
+
+private theorem encode_commaSp : encodeSE commaSpS = some commaSp := by decide
+
+/-- the folded `str` the API returns denotes the folded bytes of the byte-level model -/
+theorem encode_fold (vs : List Bytes) : encodeSE (Api.fold vs) = some (reduceValues vs) := by
+  simp only [Api.fold, reduceValues]
+  induction vs with
+  | nil => rfl
+  | cons v vs ih =>
+    cases vs with
+    | nil => simp [strJoin, joinWith, native_roundtrip]
+    | cons w ws =>
+      simp only [List.map_cons, strJoin, joinWith] at *
+      simp [encode_append, native_roundtrip, encode_commaSp, ih]
+
+private theorem encList_native (l : List Bytes) : Api.encList (l.map native) = some l := by
+  induction l with
+  | nil => rfl
+  | cons b l ih => simp [Api.encList, native_roundtrip, ih]
+
+private theorem encPairs_native (l : Fields) (g : Bytes → Bytes) (f : Bytes → PyStr)
+    (hf : ∀ k, encodeSE (f k) = some (g k)) :
+    Api.encPairs (l.map (fun e => (native e.1, f e.2))) = some (l.map (fun e => (e.1, g e.2))) := by
+  induction l with
+  | nil => rfl
+  | cons e l ih => simp [Api.encPairs, native_roundtrip, hf, ih]
+
+private theorem getAll_nonempty_of_iter (fs : Fields) (k : Bytes) (h : k ∈ C35.iter fs) :
+    (C35.getAll fs k).isEmpty = false := by
+  rw [iter_eq] at h
+  have := lookup_of_mem_firsts fs k h
+  rw [getAll_eq]
+  cases hg : Spec.getAll fs k with
+  | nil => simp [Spec.lookup, hg] at this
+  | cons a as => rfl
+
+/-- `items()` at the API: one `(str, str)` pair per iterated key — the key survives its way back through
+    `_always_bytes` and the lookup never misses -/
+theorem api_items (fs : Fields) :
+    Api.items fs = (C35.iter fs).map (fun k => (native k, Api.fold (C35.getAll fs k))) := by
+  simp only [Api.items, List.filterMap_map]
+  apply filterMap_total
+  intro k hk
+  simp [Function.comp, native_roundtrip, getAll_nonempty_of_iter fs k hk]
+
+private theorem enc_api_items (fs : Fields) : Api.encPairs (Api.items fs) = some (C35.items fs) := by
+  rw [api_items, items_total]
+  have := encPairs_native ((C35.iter fs).map (fun k => (k, k))) (fun k => reduceValues (C35.getAll fs k))
+    (fun k => Api.fold (C35.getAll fs k)) (fun k => encode_fold _)
+  simpa [List.map_map, Function.comp_def] using this
+
+private theorem lower_target (fs : Fields) (a : AOp) (op : Op) (h : Api.lower fs a = some op) : op.target = a.target := by
+  cases a with
+  | k1 kind t k =>
+    simp only [Api.lower, Option.map_eq_some_iff] at h
+    obtain ⟨kb, _, rfl⟩ := h
+    cases kind <;> rfl
+  | kv kind t k v =>
+    simp only [Api.lower] at h
+    cases hk : alwaysBytes k with
+    | none => simp [hk] at h
+    | some kb =>
+      simp only [hk] at h
+      cases kind with
+      | setItem => simp only [Option.map_eq_some_iff] at h; obtain ⟨_, _, rfl⟩ := h; rfl
+      | add => simp only [Option.map_eq_some_iff] at h; obtain ⟨_, _, rfl⟩ := h; rfl
+      | setdefault =>
+        by_cases hc : C35.contains fs kb = true
+        · simp only [hc, if_true, Option.some.injEq] at h; subst h; rfl
+        · simp only [hc, Bool.false_eq_true, if_false, Option.map_eq_some_iff] at h; obtain ⟨_, _, rfl⟩ := h; rfl
+  | setAll t k vs =>
+    simp only [Api.lower] at h
+    cases hk : alwaysBytes k <;> cases hv : Api.convList vs <;> simp only [hk, hv] at h <;> first | cases h | skip
+    rfl
+  | insert t i k v =>
+    simp only [Api.lower] at h
+    cases hk : alwaysBytes k <;> cases hv : alwaysBytes v <;> simp only [hk, hv] at h <;> first | cases h | skip
+    rfl
+  | update t ps => simp only [Api.lower, Option.some.injEq] at h; subst h; rfl
+  | plain o => simp only [Api.lower, Option.some.injEq] at h; subst h; rfl
+
+/-- a call changes the store exactly as the byte-level operation it lowers to (any call, including a partly
+    applied `update`) -/
+theorem api_state (st : Store) (fs : Fields) (a : AOp) (op : Op)
+    (hfs : st[a.target]? = some fs) (hl : Api.lower fs a = some op) :
+    (Api.step st a).1 = (C35.step st op).1 := by
+  simp only [Api.step, hfs, hl]
+  cases a <;> rfl
+
+/-- a call whose `str` arguments cannot be encoded raises before anything changes -/
+theorem api_unicode_error_no_change (st : Store) (fs : Fields) (a : AOp)
+    (hfs : st[a.target]? = some fs) (hl : Api.lower fs a = none) :
+    Api.step st a = (st, .unicodeError) := by
+  simp only [Api.step, hfs, hl]
+
+
+private theorem step_ret (st : Store) (fs : Fields) (op : Op) (h : st[op.target]? = some fs) :
+    (C35.step st op).2 = (C35.apply st fs op).2.1 := by
+  simp only [C35.step, h]
+
+private theorem contains_isEmpty (fs : Fields) (k : Bytes) : C35.contains fs k = !(C35.getAll fs k).isEmpty := by
+  simp only [C35.contains, C35.getItem]
+  cases (C35.getAll fs k).isEmpty <;> rfl
+
+/-- **what the API returns.** For every well-formed call whose arguments can be encoded, the `str` results the caller
+    sees (folded values, `get_all` lists, iterated keys, `items`/`keys`/`values`, `pop`/`popitem`/`setdefault` results)
+    denote — taken back through `_always_bytes` — exactly the byte-level results of the operation the call lowers to.
+    Together with `api_state` and `run_refines` the multimap laws therefore hold for what `Headers` hands out. -/
+theorem api_returns (st : Store) (fs : Fields) (a : AOp) (op : Op)
+    (hfs : st[a.target]? = some fs) (hl : Api.lower fs a = some op) (hwf : a.wf = true)
+    (hup : ∀ t ps, a = .update t ps → (Api.convPairs ps).2 = true) :
+    ARet.enc (Api.step st a).2 = some (C35.step st op).2 := by
+  have htgt := lower_target fs a op hl
+  rw [step_ret st fs op (by rw [htgt]; exact hfs)]
+  simp only [Api.step, hfs, hl]
+  cases a with
+  | k1 kind t k =>
+    simp only [Api.lower, Option.map_eq_some_iff] at hl
+    obtain ⟨kb, _, rfl⟩ := hl
+    cases kind with
+    | getItem =>
+      simp only [Api.ret, C35.apply, C35.getItem]
+      by_cases he : (C35.getAll fs kb).isEmpty = true <;> simp [he, ARet.enc, encode_fold]
+    | get =>
+      simp only [Api.ret, C35.apply, C35.getItem]
+      by_cases he : (C35.getAll fs kb).isEmpty = true <;> simp [he, ARet.enc, encode_fold]
+    | getAll => simp [Api.ret, C35.apply, ARet.enc, encList_native]
+    | contains => simp [Api.ret, C35.apply, ARet.enc, contains_isEmpty]
+    | delItem =>
+      simp only [Api.ret, C35.apply, C35.delItem, contains_isEmpty]
+      by_cases he : (C35.getAll fs kb).isEmpty = true <;> simp [he, ARet.enc]
+    | pop =>
+      simp only [Api.ret, C35.apply, C35.pop, C35.getItem, C35.delItem, contains_isEmpty]
+      by_cases he : (C35.getAll fs kb).isEmpty = true <;> simp [he, ARet.enc, encode_fold]
+  | kv kind t k v =>
+    simp only [Api.lower] at hl
+    cases hk : alwaysBytes k with
+    | none => simp [hk] at hl
+    | some kb =>
+      simp only [hk] at hl
+      cases kind with
+      | setItem => simp only [Option.map_eq_some_iff] at hl; obtain ⟨_, _, rfl⟩ := hl; simp [Api.ret, C35.apply, ARet.enc]
+      | add => simp only [Option.map_eq_some_iff] at hl; obtain ⟨_, _, rfl⟩ := hl; simp [Api.ret, C35.apply, ARet.enc]
+      | setdefault =>
+        by_cases hc : C35.contains fs kb = true
+        · simp only [hc, if_true, Option.some.injEq] at hl; subst hl
+          have he : (C35.getAll fs kb).isEmpty = false := by rw [contains_isEmpty] at hc; simpa using hc
+          simp [Api.ret, C35.apply, C35.setdefault, C35.getItem, he, ARet.enc, encode_fold]
+        · simp only [hc, Bool.false_eq_true, if_false, Option.map_eq_some_iff] at hl
+          obtain ⟨vb, hvb, rfl⟩ := hl
+          have he : (C35.getAll fs kb).isEmpty = true := by rw [contains_isEmpty] at hc; simpa using hc
+          simp [Api.ret, C35.apply, C35.setdefault, C35.getItem, he, ARet.enc, hvb]
+  | setAll t k vs =>
+    simp only [Api.lower] at hl
+    cases hk : alwaysBytes k <;> cases hv : Api.convList vs <;> simp only [hk, hv] at hl <;> first | cases hl | skip
+    simp [Api.ret, C35.apply, ARet.enc]
+  | insert t i k v =>
+    simp only [Api.lower] at hl
+    cases hk : alwaysBytes k <;> cases hv : alwaysBytes v <;> simp only [hk, hv] at hl <;> first | cases hl | skip
+    simp [Api.ret, C35.apply, ARet.enc]
+  | update t ps =>
+    simp only [Api.lower, Option.some.injEq] at hl; subst hl
+    simp [hup t ps rfl, C35.apply, ARet.enc]
+  | plain o =>
+    simp only [Api.lower, Option.some.injEq] at hl; subst hl
+    cases o with
+    | iter t => simp [Api.ret, C35.apply, ARet.enc, encList_native]
+    | len t => simp [Api.ret, C35.apply, ARet.enc]
+    | eq t u => simp only [Api.ret, C35.apply]; cases st[u]? <;> simp [ARet.enc]
+    | copy t => simp [Api.ret, C35.apply, ARet.enc]
+    | itemsMulti t =>
+      have := encPairs_native fs id native (fun k => native_roundtrip k)
+      simp [Api.ret, C35.apply, ARet.enc, itemsMulti, this]
+    | items t => simp [Api.ret, C35.apply, ARet.enc, enc_api_items]
+    | keys t m =>
+      cases m
+      · have h1 : Api.encList ((Api.items fs).map (·.1)) = some ((C35.items fs).map (·.1)) := by
+          rw [api_items, items_total]; simpa [List.map_map, Function.comp_def] using encList_native (C35.iter fs)
+        simp [Api.ret, C35.apply, ARet.enc, C35.keys, h1]
+      · have := encList_native (fs.map (·.1))
+        simp [Api.ret, C35.apply, ARet.enc, C35.keys, itemsMulti, List.map_map, Function.comp_def] at *
+        simpa using this
+    | values t m =>
+      cases m
+      · have h1 : Api.encList ((Api.items fs).map (·.2)) = some ((C35.items fs).map (·.2)) := by
+          rw [api_items, items_total]
+          have : ∀ l : List Bytes, Api.encList (l.map (fun k => Api.fold (C35.getAll fs k)))
+              = some (l.map (fun k => reduceValues (C35.getAll fs k))) := by
+            intro l; induction l with
+            | nil => rfl
+            | cons x l ih => simp [Api.encList, encode_fold, ih]
+          simpa [List.map_map, Function.comp_def] using this (C35.iter fs)
+        simp [Api.ret, C35.apply, ARet.enc, C35.values, h1]
+      · have := encList_native (fs.map (·.2))
+        simp [Api.ret, C35.apply, ARet.enc, C35.values, itemsMulti, List.map_map, Function.comp_def] at *
+        simpa using this
+    | popitem t =>
+      cases fs with
+      | nil => simp [Api.ret, C35.apply, api_items, C35.popitem, C35.iter, iterLoop, ARet.enc]
+      | cons e m =>
+        have hit : C35.iter (e :: m) = e.1 :: C35.iter (m.filter (fun x => !keq x.1 e.1)) := by
+          rw [iter_eq, firsts_cons, iter_eq]
+        have hp := popitem_eq (e :: m)
+        simp only [Spec.popFirst] at hp
+        simp only [Api.ret, C35.apply, api_items, hit, List.map_cons, hp]
+        simp [ARet.enc, native_roundtrip, encode_fold, reduce_eq, getAll_eq]
+    | clear t => simp [Api.ret, C35.apply, ARet.enc]
+    | toBytes t => simp [Api.ret, C35.apply, ARet.enc]
+    | getItem t k => simp [Api.AOp.wf, Api.textFree] at hwf
+    | get t k => simp [Api.AOp.wf, Api.textFree] at hwf
+    | getAll t k => simp [Api.AOp.wf, Api.textFree] at hwf
+    | contains t k => simp [Api.AOp.wf, Api.textFree] at hwf
+    | setItem t k v => simp [Api.AOp.wf, Api.textFree] at hwf
+    | setAll t k vs => simp [Api.AOp.wf, Api.textFree] at hwf
+    | delItem t k => simp [Api.AOp.wf, Api.textFree] at hwf
+    | add t k v => simp [Api.AOp.wf, Api.textFree] at hwf
+    | insert t i k v => simp [Api.AOp.wf, Api.textFree] at hwf
+    | pop t k => simp [Api.AOp.wf, Api.textFree] at hwf
+    | setdefault t k d => simp [Api.AOp.wf, Api.textFree] at hwf
+    | update t ps => simp [Api.AOp.wf, Api.textFree] at hwf
+
+-- h = Headers([(b"X-\xc3\xa9", b"caf\xc3\xa9"), (b"x-\xc3\xa9", b"\xff")]); h["X-é"] == "café, \udcff"
+example : (Api.step [[([0x58, 0x2d, 0xc3, 0xa9], [0x63, 0x61, 0x66, 0xc3, 0xa9]), ([0x78, 0x2d, 0xc3, 0xa9], [0xff])]]
+    (.k1 .getItem 0 (.s [0x58, 0x2d, 0xe9]))).2 = .str [0x63, 0x61, 0x66, 0xe9, 0x2c, 0x20, 0xdcff] := by decide
+example : (Api.step [[]] (.k1 .getItem 0 (.s [0xd800]))).2 = .unicodeError := by decide
 
 end MitmVerif.Props.C35
